@@ -2,6 +2,7 @@
 mod conn;
 mod rt;
 mod tok;
+mod topicx;
 
 use std::io::{BufRead, BufWriter, Write};
 use std::sync::{Arc, Mutex};
@@ -101,6 +102,10 @@ fn main() {
                 }
             }
             w.flush().unwrap();
+        }
+        "topic" => {
+            let every: usize = args.get(4).and_then(|s| s.parse().ok()).unwrap_or(50);
+            topicx::run(&args[2], &args[3], every);
         }
         other => {
             eprintln!("unknown subcommand {other}");
